@@ -31,10 +31,11 @@ CONSTANTS Universe,    \* candidate entries [key, ifd, cls]
           OutFile
 
 VARIABLES pick, bulk, pad, ifd0at, variant,   \* input (environment)
+          dirs,                               \* per directory the sequence of its entries (derived from pick/bulk, computed once)
           lay, at, free, phase,               \* layout under construction
           po, pend, cur, out, dropped, pc, hdr, reads        \* reader
 
-vars == <<pick, bulk, pad, ifd0at, variant, lay, at, free, phase, po, pend, cur, out, dropped, pc, hdr, reads>>
+vars == <<pick, bulk, pad, ifd0at, variant, dirs, lay, at, free, phase, po, pend, cur, out, dropped, pc, hdr, reads>>
 
 --------------------------------------------------------------------------------
 (* entry classes *)
@@ -42,7 +43,7 @@ EmbCls == {"embShort", "embLong", "embAscii", "embByte", "fEmb"}
 PtrCls == {"exifptr", "gpsptr"}
 Kind(cls) == IF cls \in EmbCls THEN "emb" ELSE IF cls \in PtrCls THEN "ptr" ELSE IF cls = "inv" THEN "inv" ELSE "ool"
 SizeOf(cls) == CASE cls = "rat" -> 8 [] cls = "srat" -> 8 [] cls = "rat3" -> 24 [] cls = "rat4" -> 32
-                 [] cls = "date" -> 20 [] cls = "date11" -> 11 [] cls = "zone" -> 7 [] cls = "subsec" -> 7
+                 [] cls = "date" -> 20 [] cls = "date11" -> 11 [] cls = "zone" -> 7 [] cls = "subsec" -> 7 [] cls = "subsec5" -> 5
                  [] cls = "ascii9" -> 9 [] cls = "ascii33" -> 33 [] cls = "ascii5" -> 5 [] cls = "fOol" -> 8
                  [] OTHER -> 4
 Known(cls) == cls \notin {"fEmb", "fOol", "inv"} \cup PtrCls      \* classes that produce a reported field
@@ -54,7 +55,8 @@ NeedGPS  == \E e \in pick : e.ifd = "GPS"
 PtrEntries == (IF NeedExif THEN {[key |-> 900, ifd |-> "IFD0", cls |-> "exifptr"]} ELSE {})
          \cup (IF NeedGPS  THEN {[key |-> 901, ifd |-> "IFD0", cls |-> "gpsptr"]} ELSE {})
 AllEntries == pick \cup PtrEntries \cup BulkEntries
-Dir(d) == SetToSortSeq({e \in AllEntries : e.ifd = d}, LAMBDA a, b : a.key < b.key)
+DirCalc(d) == SetToSortSeq({e \in AllEntries : e.ifd = d}, LAMBDA a, b : a.key < b.key)
+Dir(d) == dirs[d]
 DirSize(d) == 2 + 12 * Len(Dir(d)) + 4
 
 \* blocks other than IFD0: value blocks (by entry key) and the two sub-directories
@@ -65,17 +67,20 @@ Blocks == ValBlocks \cup DirBlocks
 Placed == {lay[i] : i \in 1..Len(lay)}
 DirPlaced(d) == d = "IFD0" \/ \E b \in Placed : b.t = "dir" /\ b.ifd = d
 
+BulkRunOpen == (\E b \in Placed : b.key > 1000) /\ (\E c \in Blocks \ Placed : c.key > 1000)
+
 \* offset an entry points to (value block or child directory)
 OffOf(e) == at[e.key]
 
 --------------------------------------------------------------------------------
 Init == /\ pick \in UNION {kSubset(k, Universe) : k \in MinPick..MaxPick}
         /\ bulk \in Bulks /\ pad \in Pads /\ ifd0at \in Ifd0Ats /\ variant \in Variants
+        /\ dirs = [d \in {"IFD0", "Exif", "GPS"} |-> DirCalc(d)]
         /\ lay = <<>> /\ at = <<>> /\ free = 0 /\ phase = "lay0"
         /\ po = 0 /\ pend = <<>> /\ cur = 1 /\ out = <<>> /\ dropped = {} /\ pc = "idle" /\ hdr = "IFD0" /\ reads = 0
 
 readerVars == <<po, pend, cur, out, dropped, pc, hdr, reads>>
-inputVars  == <<pick, bulk, pad, ifd0at, variant>>
+inputVars  == <<pick, bulk, pad, ifd0at, variant, dirs>>
 
 \* IFD0 is always the first block
 PlaceIfd0 == /\ phase = "lay0" /\ phase' = "lay"
@@ -87,6 +92,7 @@ Place == /\ phase = "lay"
          /\ \E b \in Blocks \ Placed :
               /\ (b.t = "val" => DirPlaced(b.ifd))
               /\ (b.key > 1000 => \A c \in Blocks \ Placed : c.key > 1000 => b.key <= c.key)
+              /\ (BulkRunOpen => b.key > 1000)            \* ... and as one contiguous run, at any position among the other blocks
               /\ lay' = Append(lay, b)
               /\ at' = (b.key :> (free + pad)) @@ at
               /\ free' = free + pad + b.size
@@ -197,11 +203,15 @@ DropsOnlyFull == \A d \in dropped : d[2] = "full"
 Progress   == [][pc = "loop" /\ pc' = "adv" /\ out' # out => po' > po]_vars
 Terminates == <>(pc = "done")
 
-\* one case per terminal state: the abstract file (for the concretiser) and the specified outcome
+\* one case per terminal state: the abstract file (for the concretiser) and the specified outcome.
+\* The bulk filler (keys > 1000: a contiguous run of 8-byte value blocks, entries at the end of IFD0)
+\* is emitted as (bulk, bulkAt) only; the concretiser re-creates it (records stay below 8 KiB).
+NoBulk(sq) == SelectSeq(sq, LAMBDA x : x.key <= 1000)
 Emit == (pc = "done" /\ OutFile # "") =>
           CSVWrite("%1$s", <<ToJson([
              pick |-> SetToSortSeq(pick, LAMBDA a, b : a.key < b.key), bulk |-> bulk, pad |-> pad, ifd0at |-> ifd0at, variant |-> variant,
-             dirs |-> [IFD0 |-> Dir("IFD0"), Exif |-> Dir("Exif"), GPS |-> Dir("GPS")],
-             lay |-> lay, offs |-> [i \in 1..Len(lay) |-> at[lay[i].key]], len |-> TiffLen,
+             dirs |-> [IFD0 |-> NoBulk(Dir("IFD0")), Exif |-> Dir("Exif"), GPS |-> Dir("GPS")],
+             lay |-> NoBulk(lay), offs |-> [i \in 1..Len(NoBulk(lay)) |-> at[NoBulk(lay)[i].key]],
+             bulkAt |-> IF bulk > 0 THEN at[1001] ELSE 0, len |-> TiffLen,
              out |-> out, dropped |-> SetToSeq(dropped), reads |-> reads])>>, OutFile)
 =============================================================================
